@@ -42,6 +42,10 @@ REWRITES = [
      "        let (_, _, z21) = interpolator.index_point(x_idx + 1, y_idx);\n        let (_, _, z12) = interpolator.index_point(x_idx, y_idx + 1);"),
     (CS, "if matches!(self.extrapolate, Extrapolate::No) && !in_range {", "if !in_range && matches!(self.extrapolate, Extrapolate::No) {"),
     (CS, "        let a_left = self.a.index_axis(AX0, idx);\n        let b_left = self.b.index_axis(AX0, idx);", "        let b_left = self.b.index_axis(AX0, idx);\n        let a_left = self.a.index_axis(AX0, idx);"),
+    (M1, "        if data.ndim() < 1 {", "        if data.ndim() == 0 {"),
+    (M1, "        if x.len() != data.shape()[0] {\n            return Err(BuilderError::ShapeError(", "        if data.shape()[0] != x.len() {\n            return Err(BuilderError::ShapeError("),
+    (M2, "        if !matches!(x.monotonic_prop(), Rising { strict: true }) {\n            return Err(Monotonic(\n                \"The x-axis needs to be strictly monotonic rising\".into(),\n            ));\n        }\n        if !matches!(y.monotonic_prop(), Rising { strict: true }) {",
+     "        if !matches!(x.monotonic_prop(), Rising { strict: true }) || !matches!(y.monotonic_prop(), Rising { strict: true }) {"),
 ]
 
 MUTATIONS = [
@@ -82,6 +86,14 @@ MUTATIONS = [
     (CS, "let (x_right, data_right) = interp.index_point(idx + 1);", "let (x_right, data_right) = interp.index_point(idx);"),
     (CS, "if matches!(self.extrapolate, Extrapolate::No) && !in_range {", "if matches!(self.extrapolate, Extrapolate::Yes) && !in_range {"),
     (CS, "let t = (x - x_left) / (x_right - x_left);", "let t = (x - x_left) / (x_right - x);"),
+    (M1, "if data.shape()[0] < Strat::MINIMUM_DATA_LENGHT {", "if data.shape()[0] <= Strat::MINIMUM_DATA_LENGHT {"),
+    (M1, "        if x.len() != data.shape()[0] {\n            return Err(BuilderError::ShapeError(", "        if x.len() < data.shape()[0] {\n            return Err(BuilderError::ShapeError("),
+    (M1, "if !matches!(x.monotonic_prop(), Rising { strict: true }) {", "if !matches!(x.monotonic_prop(), Rising { strict: false }) {"),
+    (M2, "        if !matches!(y.monotonic_prop(), Rising { strict: true }) {", "        if !matches!(x.monotonic_prop(), Rising { strict: true }) {"),
+    (M2, "        if data.ndim() < 2 {", "        if data.ndim() < 1 {"),
+    (M2, "let y = Array1::from_iter((0..data.shape().get(1).copied().unwrap_or(0)).map(|i| {", "let y = Array1::from_iter((0..data.shape().get(0).copied().unwrap_or(0)).map(|i| {"),
+    (M2, "        if y.len() != data.shape()[1] {", "        if y.len() != data.shape()[0] {"),
+    (M1, "let len = data.shape().first().copied().unwrap_or(0);", "let len = data.shape().first().copied().unwrap_or(1);"),
     (BIL, "        if !self.extrapolate && !interpolator.is_in_x_range(x) {\n            return Err(InterpolateError::OutOfBounds(format!(\n                \"x = {x:?} is not in range\"\n            )));\n        }\n", ""),
 ]
 
